@@ -487,6 +487,280 @@ def traffic_sweep(ctx, model, nvec, profile, stats, judge_answers=False):
                                     ctx.violation("correspondence:C06.reply-after-traffic", case, found_input=False)
 
 
+def _handler_retry_run(K, rq, flags, ax, seed, a1, a2, mode, profile):
+    """one case of handler_retry_sweep on a fresh stack -> (case record, list of (oracle name, message))"""
+    fl = dict(zip(R.FLAGS, flags))
+    entity, mkreply = rq["gen"](random.Random(seed))
+    rig = R.Rig(flags, ax, profile)
+    ser = R.canon(entity.toProtocolTreeNode())
+
+    def answer(t):
+        return mkreply(entity.getId()) if t == "result" else K._err(entity.getId(), K.SRV)
+    names = lambda us: [type(u).__name__ if u is not None else "<None>" for u in us]
+    probs = []
+    ups0, outs0, bottom0, exc0 = rig.send(entity)
+    reply1 = answer(a1)
+    if mode == "inside":
+        ups1, outs1, downs1, exc1, retried = rig.recv_retrying(reply1, entity)
+    else:
+        ups1, downs1, exc1 = rig.recv(reply1)
+        _u, outs1, _b, exc1b = rig.send(entity)
+        exc1, retried = exc1 or exc1b, True
+        ups1 = ups1 + _u
+    reply2 = answer(a2)
+    ups2, downs2, exc2 = rig.recv(reply2)
+    ups3, downs3, exc3 = rig.recv(reply2)
+    # the duplicate answers no pending request: it is handled like the same stanza on a stack that never sent anything
+    # (nothing, except for the few answer stanzas that are a supported incoming kind of their own, e.g. a sync result)
+    base_ups, _bd, _be = R.Rig(flags, ax, profile).recv(reply2)
+    exp1 = [rq[a1]] if rq[a1] else []
+    exp2 = [rq[a2]] if rq[a2] else []
+    case = {"handler_retry": mode, "request": rq["name"], "first_answer": a1, "retry_answer": a2, "flags": fl,
+            "axolotl": ax, "gen_seed": seed, "request_stanza": R.show(ser),
+            "steps": ["application sends the request", "server answers with %s" % a1,
+                      "application sends the SAME entity again (same id) %s" % (
+                          "from inside its receive() of that answer" if mode == "inside" else "after its receive() returned"),
+                      "server answers the retried request with %s" % a2, "the same answer stanza is delivered once more"],
+            "first_reply": R.show(reply1), "retry_reply": R.show(reply2),
+            "observed_up": [names(ups0), names(ups1), names(ups2), names(ups3)],
+            "expected_up": [[], exp1, exp2, names(base_ups)],
+            "retried_request_out": [R.show(R.canon(o)) for o in outs1], "retried": retried}
+    excs = [e for e in (exc0, exc1, exc2, exc3) if e is not None]
+    if excs:
+        case["exception"] = repr(excs[0])
+        probs.append(("oracle:no-error", "raised %r" % (excs[0],)))
+    if [R.canon(o) for o in outs0] != [ser]:
+        probs.append(("oracle:send_once", "the request left the protocol layers %d times" % len(outs0)))
+    if names(ups1) != exp1:
+        probs.append(("oracle:reply_once", "first answer: entities at the application %r, expected %r" % (names(ups1), exp1)))
+    if retried and [R.canon(o) for o in outs1] != [ser]:
+        probs.append(("oracle:send_once", "the retried request left the protocol layers %d times, expected exactly "
+                      "its serialisation once" % len(outs1)))
+    if retried and (a2 == "result" or rq[a2] is not None) and names(ups2) != exp2:
+        probs.append(("oracle:reply_once", "answer to the retried request: entities at the application %r, expected %r"
+                      % (names(ups2), exp2)))
+    if downs2 or downs3:
+        case["observed_down"] = [R.show(x) for x in downs2 + downs3]
+        probs.append(("oracle:reply_once", "an answer stanza made the stack send something"))
+    if retried and names(ups3) != names(base_ups):
+        probs.append(("oracle:reply_once", "the duplicate of an already consumed answer produced %r, the same stanza on "
+                      "a stack without pending requests %r" % (names(ups3), names(base_ups))))
+    if probs:
+        case["problem"] = "; ".join(p[1] for p in probs)
+    obs = None
+    if mode == "after":
+        obs = [R.norm_actions(R.abstract_obs(ups0, outs0, exc0, ser)),
+               R.norm_actions(R.abstract_obs(ups1, [], None)),
+               R.norm_actions(R.abstract_obs([], outs1, None, ser)),
+               R.norm_actions(R.abstract_obs(ups2, downs2, exc2)),
+               R.norm_actions(R.abstract_obs(ups3, downs3, exc3))]
+        ops = [[1, R.entity_features(entity)], [0, R.node_features(reply1)], [1, R.entity_features(entity)],
+               [0, R.node_features(reply2)], [0, R.node_features(reply2)]]
+        obs = (ops, obs)
+    return case, probs, obs, retried
+
+
+def handler_retry_sweep(ctx, model, nvec, profile, stats):
+    """the application re-sends the SAME request entity (same id) from inside its handler for the answer (result or
+    error) of a tracked request -- the usual `retry the request I still hold` pattern; the answer to the retried
+    request is an incoming stanza of a supported kind like any other: exactly one entity of the documented class,
+    its duplicate nothing.  Control: the same retry after the handler has returned (compared with the model's
+    run_trace, which has no re-entrancy)."""
+    K = kinds()
+    stats.setdefault("handler_retry_cases", {"inside": 0, "after": 0, "retried_inside": 0})
+    for rq in K.REQS:
+        if len(ctx.violations) >= 8:
+            break
+        for ax in (0, 1):
+            for flags in (FLAGSETS[0], FLAGSETS[-1]):
+                fl = dict(zip(R.FLAGS, flags))
+                if not (rq["module"] is None or fl[rq["module"]]):
+                    continue
+                for a1 in ("result", "error"):
+                    if rq[a1] is None:
+                        continue          # nothing reaches the application: no handler to retry from (C08's subject)
+                    for a2 in ("result", "error"):
+                        for mode in ("inside", "after"):
+                            for _ in range(nvec):
+                                seed = ctx.rng.getrandbits(48)
+                                case, probs, obs, retried = _handler_retry_run(K, rq, flags, ax, seed, a1, a2, mode, profile)
+                                stats["evaluations"] += 1
+                                stats["reply_cases"] += 1
+                                stats["handler_retry_cases"][mode] += 1
+                                if mode == "inside" and retried:
+                                    stats["handler_retry_cases"]["retried_inside"] += 1
+                                for name in sorted(set(p[0] for p in probs)):
+                                    ctx.violation(name, case)
+                                    stats["oracle_failures"] += 1
+                                if model is not None and obs is not None:
+                                    res = model.call("run_trace", model_arg(flags, ax, obs[0]))
+                                    ok = not isinstance(res, tuple) and len(res) == len(obs[1]) and \
+                                        all(norm_model(m)[0] == o for m, o in zip(res, obs[1]))
+                                    if not ok:
+                                        stats["mismatches"] += 1
+                                        case = dict(case, model=jsonable(res), impl=jsonable(obs[1]))
+                                        ctx.violation("correspondence:C06.retry-after-handler", case,
+                                                      found_input=bool(probs))
+
+
+def replay_handler_retry(ctx, data, profile):
+    case = data["case"]
+    K = kinds()
+    rq = [q for q in K.REQS if q["name"] == case["request"]][0]
+    flags = tuple(case["flags"][f] for f in R.FLAGS)
+    c2, probs, _obs, _r = _handler_retry_run(K, rq, flags, case["axolotl"], case["gen_seed"], case["first_answer"],
+                                             case["retry_answer"], case["handler_retry"], profile)
+    print("request:", case["request"], "flags:", case["flags"], "axolotl:", case["axolotl"])
+    for i, st in enumerate(c2["steps"]):
+        print("step %d: %s" % (i, st))
+    print("observed at the application per step [send, first answer, retry answer, duplicate]:", c2["observed_up"])
+    print("expected:", c2["expected_up"])
+    if probs:
+        print("problem:", c2["problem"])
+        print("VIOLATION property=%s replay=(replayed)" % ctx.pid)
+        return 1
+    print("property holds on this input now")
+    return 0
+
+
+# ------------------------------------------------------------------ lifecycle events, then stanzas that need an answer
+LIFECYCLE_PROBES = ("recv.iq.ping", "recv.notification.status")
+
+
+def lifecycle_events():
+    from yowsup.layers.network import YowNetworkLayer
+    from yowsup.layers.auth import YowAuthenticationProtocolLayer
+    return {"AUTHED": YowAuthenticationProtocolLayer.EVENT_AUTHED,
+            "DISCONNECT": YowNetworkLayer.EVENT_STATE_DISCONNECT,
+            "DISCONNECTED": YowNetworkLayer.EVENT_STATE_DISCONNECTED,
+            "CONNECTED": YowNetworkLayer.EVENT_STATE_CONNECTED}
+
+
+def _ping_threads():
+    import threading
+    return [t for t in threading.enumerate() if t.name.startswith("YowPing")]
+
+
+def _lifecycle_run(K, events, interval, flags, seed, profile, started):
+    """events delivered to ONE real stack (no encryption layers: their CONNECTED/DISCONNECTED handling is C14's/C16's
+    subject); after every event each probe kind is delivered once.  `started` collects the keep-alive threads the
+    case made the library start; they are stopped before returning.  -> (case, problems)"""
+    EV = lifecycle_events()
+    by = K.by_name()
+    r = random.Random(seed)
+    before = set(_ping_threads())
+    rig = R.Rig(flags, 0, profile, ping_interval=R.Rig.UNSET if interval is None else interval)
+    trace, probs = [], []
+    try:
+        def probe(after):
+            for pk in LIFECYCLE_PROBES:
+                k = by[pk]
+                node = k["gen"](random.Random(r.getrandbits(48)))
+                ups, downs, exc = rig.recv(node)
+                raw = {"ups": ups, "downs": downs, "exc": exc, "node": node}
+                orc = [o for o in oracle_recv(k, flags, raw) if o[2] is None]
+                trace.append({"after": after, "stanza": R.show(node), "up": [type(u).__name__ for u in ups],
+                              "down": [R.show(x) for x in downs], "exception": repr(exc) if exc else None})
+                for name, msg, _key in orc:
+                    probs.append((name, "after events %r, %s: %s" % (after, pk, msg)))
+        probe([])
+        for i, e in enumerate(events):
+            ups, downs, exc = rig.event(EV[e], **({"passive": False} if e == "AUTHED" else {"reason": "test"}
+                                                   if e.startswith("DISCONNECT") else {}))
+            if exc is not None:
+                probs.append(("oracle:no-error", "event %s raised %r" % (e, exc)))
+            probe(list(events[:i + 1]))
+    finally:
+        # stop the keep-alive threads this case started (they tick once a second; joined at the end of the sweep)
+        try:
+            rig.event(EV["DISCONNECT"], reason="end of case")
+        except Exception:
+            pass
+        for t in _ping_threads():
+            if t not in before:
+                t.stop()
+                started.append(t)
+    case = {"lifecycle": list(events), "ping_interval": interval, "flags": dict(zip(R.FLAGS, flags)), "axolotl": 0,
+            "gen_seed": seed, "probes": list(LIFECYCLE_PROBES), "trace": trace,
+            "expected": "every server ping: exactly one pong with its id going down, nothing for the application; "
+                        "every notification: exactly one ack; whatever connection events the stack saw before"}
+    if probs:
+        case["problem"] = "; ".join(p[1] for p in probs[:6])
+        # keep the trace short: up to the first bad probe
+    return case, probs
+
+
+def _join_ping_threads(started, stats):
+    import time
+
+    def alive(t):
+        # YowPingThread keeps its stop flag in `_stop`, which hides threading.Thread's private method of that name on
+        # python 3: join()/is_alive() of a FINISHED ping thread raise TypeError when they try to call it
+        try:
+            return t.is_alive()
+        except TypeError:
+            return False
+    leaked = 0
+    deadline = time.time() + 4
+    for t in started:
+        while alive(t) and time.time() < deadline:
+            time.sleep(0.05)
+        leaked += 1 if alive(t) else 0
+    stats["lifecycle_threads"] = {"started_by_the_library": len(started), "alive_after_stop_and_join": leaked}
+    return leaked
+
+
+def lifecycle_sweep(ctx, maxlen, profile, stats):
+    """C07 per stanza, whatever connection events came before: sequences over {AUTHED, DISCONNECT, DISCONNECTED,
+    CONNECTED} up to maxlen, keep-alive interval property unset / 0 / 50, a server ping and a notification after every
+    prefix.  Interval 50 (and unset = 50) makes AUTHED start the library's real keep-alive thread; it never fires
+    within a case (first ping after 50 s) and is stopped at the end of the case."""
+    K = kinds()
+    names = sorted(lifecycle_events())
+    started = []
+    st = stats.setdefault("lifecycle", {"cases": 0, "events": 0, "probes": 0, "intervals": ["unset", 0, 50],
+                                        "max_length": maxlen})
+    try:
+        for n in range(1, maxlen + 1):
+            for events in itertools.product(names, repeat=n):
+                for interval in (None, 0, 50):
+                    if len([v for v in ctx.violations if v["found_input"]]) >= 4:
+                        return
+                    flags = FLAGSETS[-1] if (st["cases"] % 4) else FLAGSETS[0]
+                    seed = ctx.rng.getrandbits(48)
+                    case, probs = _lifecycle_run(K, events, interval, flags, seed, profile, started)
+                    st["cases"] += 1
+                    st["events"] += n
+                    st["probes"] += len(case["trace"])
+                    stats["evaluations"] += len(case["trace"])
+                    if probs:
+                        stats["oracle_failures"] += 1
+                        ctx.violation(probs[0][0], case)
+    finally:
+        if _join_ping_threads(started, stats):
+            ctx.violation("harness:ping-thread-still-running", dict(stats["lifecycle_threads"]), found_input=False)
+
+
+def replay_lifecycle(ctx, data, profile):
+    case = data["case"]
+    K = kinds()
+    flags = tuple(case["flags"][f] for f in R.FLAGS)
+    started = []
+    c2, probs = _lifecycle_run(K, case["lifecycle"], case["ping_interval"], flags, case["gen_seed"], profile, started)
+    _join_ping_threads(started, {})
+    print("events:", case["lifecycle"], "ping interval property:", case["ping_interval"], "flags:", case["flags"])
+    for t in c2["trace"]:
+        print("after %r: %s -> up %s down %s exc %s" % (t["after"], json.dumps(t["stanza"]["attrs"]), t["up"],
+                                                        [(d["tag"], d["attrs"]) for d in t["down"]], t["exception"]))
+    print("expected:", c2["expected"])
+    if probs:
+        print("problem:", c2["problem"])
+        print("VIOLATION property=%s replay=(replayed)" % ctx.pid)
+        return 1
+    print("property holds on this history now")
+    return 0
+
+
 def retry_sweep(ctx, model, nvec, profile, stats):
     """receipts for a message the send layer still holds (state set up through the layer's own enqueueSent)"""
     K = kinds()
@@ -702,6 +976,10 @@ def replay_case(ctx, data, profile):
     K = kinds()
     if "history" in case:
         return replay_history(ctx, data, profile, ctx.pid == "C07")
+    if "handler_retry" in case:
+        return replay_handler_retry(ctx, data, profile)
+    if "lifecycle" in case:
+        return replay_lifecycle(ctx, data, profile)
     if "request" in case and "gen_seed" in case:
         rq = [q for q in K.REQS if q["name"] == case["request"]][0]
         flags = tuple(case["flags"][f] for f in R.FLAGS)
